@@ -141,6 +141,7 @@ static int handle_core(char **f, int nf) {
 #include "u_filter.h"
 #include "u_block.h"
 #include "u_snappy.h"
+#include "u_iterstack.h"
 
 static void handle(char *line) {
   static char *f[MAXF]; int nf = split_fields(line, f, MAXF);
@@ -149,6 +150,7 @@ static void handle(char *line) {
   if (handle_filter(f, nf)) return;
   if (handle_block(f, nf)) return;
   if (handle_snappy(f, nf)) return;
+  if (handle_iterstack(f, nf)) return;
   printf("bad-op");
 }
 
